@@ -25,12 +25,6 @@ class Stream:
         else a short reason (str) or dict(what=..., signature=...).  Evaluated on EVERY op, not only on
         mismatches.  The default recognises the marker a harness appends when it evaluated the property's
         predicate itself on the real code's output: `<result>!VIOL:<reason>[#<signature>]`."""
-        if "!VIOL:" in impl:
-            r = impl.split("!VIOL:", 1)[1]
-            if "#" in r:
-                what, sig = r.split("#", 1)
-                return {"what": what, "signature": sig}
-            return r
         return None
 
     def case_predicate(self, ops, impls):
@@ -102,6 +96,17 @@ class PropCheck:
         return None
 
 
+def marker_predicate(impl):
+    """`<result>!VIOL:<reason>[#<signature>]` appended by a harness that evaluated the property itself"""
+    if "!VIOL:" in impl:
+        r = impl.split("!VIOL:", 1)[1]
+        if "#" in r:
+            what, sig = r.split("#", 1)
+            return {"what": what, "signature": sig}
+        return r
+    return None
+
+
 def eval_predicates(st, ops, impl):
     """evaluate the per-op and per-case property predicates of a stream on implementation outputs"""
     concrete = []
@@ -116,7 +121,7 @@ def eval_predicates(st, ops, impl):
             cur_o, cur_i = [], []
             continue
         cur_o.append(o); cur_i.append(a)
-        why = st.predicate(o, a)
+        why = marker_predicate(a) or st.predicate(o, a)
         if why:
             c = {"stream": st.name, "input": {"op": o, "impl": a}}
             c.update(why if isinstance(why, dict) else {"what": why})
@@ -212,7 +217,7 @@ def run_check(chk, tier, seed, replay=None):
                               "mismatches": d["n_mismatches"], "op_kinds": kinds, "rule": st.rule}
         samples += [dict(s, stream=sname) for s in sample_cases(d["ops"], d["impl"], 3)]
         for m in d["mismatches"][:50]:
-            why = st.predicate(m["op"], m["impl"])
+            why = marker_predicate(m["impl"]) or st.predicate(m["op"], m["impl"])
             if not why:
                 broken.append({"kind": "correspondence", "stream": sname, "name": "model!=impl",
                                "case": m["case"], "op": m["op"], "impl": m["impl"], "model": m["model"],
